@@ -111,7 +111,12 @@ bool TextFile::readLine(String& s)
 Array<String> TextFile::lines()
 {
 	Array<String> lines;
-	if(!_file && !open(READ))
+	if (_file) // already open, possibly for writing or not at the start: read through a separate handle
+	{
+		flush();
+		return TextFile(_path).lines();
+	}
+	if(!open(READ))
 		return lines;
 	while (!end()) {
 		lines << String();
